@@ -1,5 +1,6 @@
 (** * C10 - Blacklisting refunds in full and excludes; un-blacklisting restores. *)
 From LP Require Import Proofs.Tactics Proofs.LedgerBase Proofs.Gates Proofs.Frames Proofs.Settle Proofs.Confirm Proofs.Filter Proofs.Examples.
+From LP Require Import Proofs.Resume Proofs.Setup Proofs.BlacklistInv.
 Open Scope N_scope.
 
 (** the blacklist loop processes the listed participants one by one with [bl_one] *)
@@ -56,6 +57,22 @@ Theorem C10_unblacklist_frame : forall l s s',
   total_claimable s' = total_claimable s /\ claimed_balance s' = claimed_balance s.
 Proof. exact unblacklist_loop_spec. Qed.
 
+(** ** from deployment (launchpad, launchpad-locked-tokens): along every set-up history a blacklisted
+    participant has no confirmed ticket ([C10_blacklisted_have_nothing_confirmed]); whoever is
+    blacklisted when the (arbitrarily interrupted) filter completes owns no ticket afterwards - hence
+    none in the draw - and its claim is rejected *)
+Theorem C10_blacklisted_have_nothing_confirmed : forall (H : list N -> list N) v w,
+  plain v -> setup_reach H v w -> forall a, blacklisted (st w) a = true -> confirmed (st w) a = 0.
+Proof. exact setup_reach_BlInv. Qed.
+
+Theorem C10_from_deployment : forall (H : list N -> list N) v w0 lf wf ef bf w1,
+  plain v -> setup_reach H v w0 ->
+  after_interrupted filter_tickets lf w0 = Some wf -> filter_tickets ef bf wf = Ok (w1, 0) ->
+  forall a, blacklisted (st w0) a = true ->
+    confirmed (st w1) a = 0 /\ range (st w1) a = None /\
+    (forall sf e, caller e = a -> exists k, claim_launchpad_tokens sf e w1 = Err k).
+Proof. exact deployed_blacklisted_excluded. Qed.
+
 Example C10_nonvacuous :
   let w1 := step_sha Base base_confirmed (mkenv 1 15 0 [], 5%nat, [], CBlacklist [2]) in
   bal w1 2 0 0 = bal base_confirmed 2 0 0 + 2000 /\ confirmed (st w1) 2 = 0 /\ blacklisted (st w1) 2 = true /\
@@ -70,5 +87,7 @@ Print Assumptions C10_gate.
 Print Assumptions C10_cannot_confirm.
 Print Assumptions C10_no_ticket_after_filter.
 Print Assumptions C10_cannot_claim.
+Print Assumptions C10_blacklisted_have_nothing_confirmed.
+Print Assumptions C10_from_deployment.
 Print Assumptions C10_unblacklist_frame.
 Print Assumptions C10_nonvacuous.
